@@ -27,37 +27,7 @@ func runC01(r *Run) {
 
 	r.Rule("C01.R1")
 	if fn := r.Fn("trillian/ctfe.addChainInternal"); fn != nil {
-		build := r.OneCall(fn, "addChainInternal:buildV1SCT", "trillian/ctfe.buildV1SCT")
-		unm := CallsTo(fn, "tls.Unmarshal")
-		if build != nil {
-			a := baseAlloc(CallArgs(build)[1])
-			ok := false
-			var src string
-			var unmCall ssa.CallInstruction
-			for _, u := range unm {
-				if a != nil && baseAlloc(CallArgs(u)[1]) == a {
-					ok = true
-					unmCall = u
-					src = r.D.D(CallArgs(u)[0])
-				}
-			}
-			r.Check("addChainInternal:sct-from-returned-leaf", ok && glob("iface(trillian.TrillianLogClient).QueueLeaf(*)#0.QueuedLeaf.Leaf.LeafValue", src), r.Where(build),
-				fmt.Sprintf("buildV1SCT's leaf is the MerkleTreeLeaf decoded by tls.Unmarshal from %q (must be the backend's QueuedLeaf.Leaf.LeafValue)", src))
-			// nothing else writes that leaf between decode and use
-			if a != nil {
-				n := 0
-				for _, ref := range *a.Referrers() {
-					switch ref.(type) {
-					case *ssa.DebugRef:
-					default:
-						n++
-					}
-				}
-				r.Check("addChainInternal:returned-leaf-untouched", n == 2, r.Where(build), fmt.Sprintf("the decoded leaf has %d uses (decode + buildV1SCT expected)", n))
-			}
-			r.ExpectArg(build, "addChainInternal:signer", 0, "p1.signer")
-			_ = unmCall
-		}
+		c01ReturnedLeaf(r, fn)
 		if c := r.OneCall(fn, "addChainInternal:QueueLeaf", "iface(trillian.TrillianLogClient).QueueLeaf"); c != nil {
 			r.ExpectArg(c, "addChainInternal:QueueLeaf.client", 0, "p1.rpcClient")
 			r.ExpectFields(fn, "addChainInternal:QueueLeafRequest", CallArgs(c)[2], map[string]string{
@@ -215,47 +185,7 @@ func runC01(r *Run) {
 	}
 
 	r.Rule("C01.R5")
-	if fn := r.Fn("trillian/util.buildLogLeaf"); fn != nil {
-		for _, ret := range Returns(fn) {
-			if errKind(ret.Results[1]) != "nil" {
-				continue
-			}
-			r.ExpectFields(fn, "buildLogLeaf", ret.Results[0], map[string]string{
-				"LeafValue":        "tls.Marshal(p1)#0",
-				"LeafIdentityHash": "sha256.Sum256(p3.Data)[:]",
-				"LeafIndex":        "p2",
-				"ExtraData":        "phi(trillian/util.ExtraDataForChain(p3, p4, p6)#0|trillian/util.ExtraDataForChainHash(p3, p5, p6)#0)",
-			})
-			for _, st := range r.StoresTo(fn, "&("+r.D.allocName(baseAlloc(ret.Results[0]))+".ExtraData)") {
-				gotNil := r.ValueUnder(fn, st.Val, Sigma{"nil?p5": "nil"})
-				gotHash := r.ValueUnder(fn, st.Val, Sigma{"nil?p5": "non"})
-				r.Check("buildLogLeaf:extra[no-hash]", gotNil == "trillian/util.ExtraDataForChain(p3, p4, p6)#0", r.Where(st), "chainHash == nil ⇒ ExtraData ← "+gotNil)
-				r.Check("buildLogLeaf:extra[hash]", gotHash == "trillian/util.ExtraDataForChainHash(p3, p5, p6)#0", r.Where(st), "chainHash != nil ⇒ ExtraData ← "+gotHash)
-			}
-		}
-		r.ErrorsGate(fn, "buildLogLeaf:errors", "*", 2)
-	}
-	if fn := r.Fn("trillian/util.BuildLogLeaf"); fn != nil {
-		if c := r.OneCall(fn, "BuildLogLeaf", "trillian/util.buildLogLeaf"); c != nil {
-			for i, w := range []string{"p0", "p1", "p2", "p3", "p4", "nil", "p5"} {
-				r.ExpectArg(c, fmt.Sprintf("BuildLogLeaf:arg%d", i), i, w)
-			}
-		}
-	}
-	if fn := r.Fn("trillian/util.ExtraDataForChain"); fn != nil {
-		if c := r.OneCall(fn, "ExtraDataForChain:marshal", "tls.Marshal"); c != nil {
-			pre := r.ArgUnder(fn, c, 0, Sigma{"p2": "T"})
-			x := r.ArgUnder(fn, c, 0, Sigma{"p2": "F"})
-			r.Check("ExtraDataForChain[precert]", glob("*new:ct.PrecertChainEntry#0", pre), r.Where(c), "isPrecert ⇒ tls.Marshal("+pre+")")
-			r.Check("ExtraDataForChain[x509]", glob("*new:ct.CertificateChain#0", x), r.Where(c), "!isPrecert ⇒ tls.Marshal("+x+")")
-			for _, ret := range Returns(fn) {
-				r.Check("ExtraDataForChain:returns-marshal", glob("tls.Marshal(*)#0", r.D.D(ret.Results[0])) && glob("tls.Marshal(*)#1", r.D.D(ret.Results[1])), r.Where(ret), "returns tls.Marshal's results")
-			}
-		}
-		r.ExpectStores(fn, "ExtraDataForChain:precert.cert", "&(new:ct.PrecertChainEntry#0.PreCertificate)", "p0", 1)
-		r.ExpectStores(fn, "ExtraDataForChain:precert.chain", "&(new:ct.PrecertChainEntry#0.CertificateChain)", "p1", 1)
-		r.ExpectStores(fn, "ExtraDataForChain:x509.chain", "&(new:ct.CertificateChain#0.Entries)", "p1", 1)
-	}
+	c01LogLeaf(r)
 
 	r.Rule("C01.R6")
 	if fn := r.Fn("(*trillian/ctfe.directIssuanceChainService).BuildLogLeaf"); fn != nil {
@@ -283,6 +213,16 @@ func runC01(r *Run) {
 
 	r.Rule("C01.R8")
 	c01Who(r)
+
+	// the de-poisoned TBSCertificate for the dedicated-pre-issuer case (rules of C03)
+	r.Shared("C01.R9", func() {
+		r.Rule("C03.R3")
+		if fn := r.Fn("x509.BuildPrecertTBS"); fn != nil {
+			c03RawCleared(r, fn)
+			r.Rule("C03.R4")
+			c03Build(r, fn)
+		}
+	})
 }
 
 func c01Leaf(r *Run) {
@@ -381,4 +321,85 @@ func c01Who(r *Run) {
 	expect("who:buildV1SCT", "trillian/ctfe.buildV1SCT", "trillian/ctfe.addChainInternal")
 	expect("who:Sign", "iface(crypto.Signer).Sign", "trillian/ctfe.buildV1SCT", "trillian/ctfe.signV1TreeHead")
 	expect("who:addChainInternal", "trillian/ctfe.addChainInternal", "trillian/ctfe.addChain", "trillian/ctfe.addPreChain")
+}
+
+// c01ReturnedLeaf: the SCT is built from the MerkleTreeLeaf decoded from the leaf the backend returned.
+func c01ReturnedLeaf(r *Run, fn *ssa.Function) {
+	build := r.OneCall(fn, "addChainInternal:buildV1SCT", "trillian/ctfe.buildV1SCT")
+	unm := CallsTo(fn, "tls.Unmarshal")
+	if build != nil {
+		a := baseAlloc(CallArgs(build)[1])
+		ok := false
+		var src string
+		var unmCall ssa.CallInstruction
+		for _, u := range unm {
+			if a != nil && baseAlloc(CallArgs(u)[1]) == a {
+				ok = true
+				unmCall = u
+				src = r.D.D(CallArgs(u)[0])
+			}
+		}
+		r.Check("addChainInternal:sct-from-returned-leaf", ok && glob("iface(trillian.TrillianLogClient).QueueLeaf(*)#0.QueuedLeaf.Leaf.LeafValue", src), r.Where(build),
+			fmt.Sprintf("buildV1SCT's leaf is the MerkleTreeLeaf decoded by tls.Unmarshal from %q (must be the backend's QueuedLeaf.Leaf.LeafValue)", src))
+		// nothing else writes that leaf between decode and use
+		if a != nil {
+			n := 0
+			for _, ref := range *a.Referrers() {
+				switch ref.(type) {
+				case *ssa.DebugRef:
+				default:
+					n++
+				}
+			}
+			r.Check("addChainInternal:returned-leaf-untouched", n == 2, r.Where(build), fmt.Sprintf("the decoded leaf has %d uses (decode + buildV1SCT expected)", n))
+		}
+		r.ExpectArg(build, "addChainInternal:signer", 0, "p1.signer")
+		_ = unmCall
+	}
+}
+
+// c01LogLeaf: construction of the backend leaf (LeafValue, identity hash, extra data).
+func c01LogLeaf(r *Run) {
+	if fn := r.Fn("trillian/util.buildLogLeaf"); fn != nil {
+		for _, ret := range Returns(fn) {
+			if errKind(ret.Results[1]) != "nil" {
+				continue
+			}
+			r.ExpectFields(fn, "buildLogLeaf", ret.Results[0], map[string]string{
+				"LeafValue":        "tls.Marshal(p1)#0",
+				"LeafIdentityHash": "sha256.Sum256(p3.Data)[:]",
+				"LeafIndex":        "p2",
+				"ExtraData":        "phi(trillian/util.ExtraDataForChain(p3, p4, p6)#0|trillian/util.ExtraDataForChainHash(p3, p5, p6)#0)",
+			})
+			for _, st := range r.StoresTo(fn, "&("+r.D.allocName(baseAlloc(ret.Results[0]))+".ExtraData)") {
+				gotNil := r.ValueUnder(fn, st.Val, Sigma{"nil?p5": "nil"})
+				gotHash := r.ValueUnder(fn, st.Val, Sigma{"nil?p5": "non"})
+				r.Check("buildLogLeaf:extra[no-hash]", gotNil == "trillian/util.ExtraDataForChain(p3, p4, p6)#0", r.Where(st), "chainHash == nil ⇒ ExtraData ← "+gotNil)
+				r.Check("buildLogLeaf:extra[hash]", gotHash == "trillian/util.ExtraDataForChainHash(p3, p5, p6)#0", r.Where(st), "chainHash != nil ⇒ ExtraData ← "+gotHash)
+			}
+		}
+		r.ErrorsGate(fn, "buildLogLeaf:errors", "*", 2)
+	}
+	if fn := r.Fn("trillian/util.BuildLogLeaf"); fn != nil {
+		if c := r.OneCall(fn, "BuildLogLeaf", "trillian/util.buildLogLeaf"); c != nil {
+			for i, w := range []string{"p0", "p1", "p2", "p3", "p4", "nil", "p5"} {
+				r.ExpectArg(c, fmt.Sprintf("BuildLogLeaf:arg%d", i), i, w)
+			}
+		}
+	}
+	if fn := r.Fn("trillian/util.ExtraDataForChain"); fn != nil {
+		if c := r.OneCall(fn, "ExtraDataForChain:marshal", "tls.Marshal"); c != nil {
+			pre := r.ArgUnder(fn, c, 0, Sigma{"p2": "T"})
+			x := r.ArgUnder(fn, c, 0, Sigma{"p2": "F"})
+			r.Check("ExtraDataForChain[precert]", glob("*new:ct.PrecertChainEntry#0", pre), r.Where(c), "isPrecert ⇒ tls.Marshal("+pre+")")
+			r.Check("ExtraDataForChain[x509]", glob("*new:ct.CertificateChain#0", x), r.Where(c), "!isPrecert ⇒ tls.Marshal("+x+")")
+			for _, ret := range Returns(fn) {
+				r.Check("ExtraDataForChain:returns-marshal", glob("tls.Marshal(*)#0", r.D.D(ret.Results[0])) && glob("tls.Marshal(*)#1", r.D.D(ret.Results[1])), r.Where(ret), "returns tls.Marshal's results")
+			}
+		}
+		r.ExpectStores(fn, "ExtraDataForChain:precert.cert", "&(new:ct.PrecertChainEntry#0.PreCertificate)", "p0", 1)
+		r.ExpectStores(fn, "ExtraDataForChain:precert.chain", "&(new:ct.PrecertChainEntry#0.CertificateChain)", "p1", 1)
+		r.ExpectStores(fn, "ExtraDataForChain:x509.chain", "&(new:ct.CertificateChain#0.Entries)", "p1", 1)
+	}
+
 }
